@@ -167,73 +167,172 @@ def mono_div(a, md):
     return r
 
 
-def normalise(n, d):
-    """cancel integer and monomial content; make the leading sign of d positive"""
+# ----------------------------------------------------------------------------
+# fractions with a FACTORED denominator:  N / (c * monomial(M) * prod f^e)
+#   N : polynomial, c : positive int, M : dict var -> exp,
+#   F : dict key -> (primitive polynomial with positive leading sign, exponent)
+# Denominators are never expanded, equal factors are shared, sums use the lcm.
+# ----------------------------------------------------------------------------
+class Frac:
+    __slots__ = ('n', 'c', 'm', 'f')
+
+    def __init__(self, n, c=1, m=None, f=None):
+        self.n, self.c, self.m, self.f = n, c, (m or {}), (f or {})
+
+    def den_poly(self):
+        d = {tuple(sorted(self.m.items())): self.c}
+        for p, e in self.f.values():
+            d = pmul(d, ppow(p, e))
+        return d
+
+
+def _lead_positive(p):
+    m0 = min(p)
+    return p[m0] > 0
+
+
+def _pkey(p):
+    return frozenset(p.items())
+
+
+def _mono_poly(md):
+    return {tuple(sorted((v, e) for v, e in md.items() if e)): 1}
+
+
+def _clean(fr):
+    """cancel integer content and monomial content between numerator and denominator"""
+    n = fr.n
     if not n:
-        return {}, ONE
-    g = gcd(content(n), content(d))
+        return Frac({}, 1, {}, {})
+    g = gcd(content(n), fr.c)
     if g > 1:
         n = {m: c // g for m, c in n.items()}
-        d = {m: c // g for m, c in d.items()}
-    if len(d) == 1:
-        (md, cd), = d.items()
-        if cd < 0:
-            n, d = pneg(n), {md: -cd}
-        if md:
-            mc = mono_content(n)
-            common = {v: min(e, mc.get(v, 0)) for v, e in md if mc.get(v, 0) > 0 and v != S3}
-            if common:
-                n = mono_div(n, common)
-                d = mono_div(d, common)
-    return n, d
+        fr.c //= g
+    if fr.m:
+        mc = mono_content(n)
+        common = {v: min(e, mc[v]) for v, e in fr.m.items() if v in mc and v != S3}
+        if common:
+            n = mono_div(n, common)
+            fr.m = {v: e - common.get(v, 0) for v, e in fr.m.items() if e - common.get(v, 0) > 0}
+    fr.n = n
+    return fr
+
+
+def _cofactor(target_c, target_m, target_f, fr):
+    """polynomial  target_den / den(fr)"""
+    q = {(): target_c // fr.c}
+    md = {v: e - fr.m.get(v, 0) for v, e in target_m.items() if e - fr.m.get(v, 0) > 0}
+    if md:
+        q = pmul(q, _mono_poly(md))
+    for k, (p, e) in target_f.items():
+        e0 = fr.f[k][1] if k in fr.f else 0
+        if e > e0:
+            q = pmul(q, ppow(p, e - e0))
+    return q
 
 
 def fadd(x, y):
-    (n1, d1), (n2, d2) = x, y
-    if not n1:
+    if not x.n:
         return y
-    if not n2:
+    if not y.n:
         return x
-    if d1 == d2:
-        return normalise(padd(n1, n2), d1)
-    return normalise(padd(pmul(n1, d2), pmul(n2, d1)), pmul(d1, d2))
+    c = x.c * y.c // gcd(x.c, y.c)
+    m = dict(x.m)
+    for v, e in y.m.items():
+        if e > m.get(v, 0):
+            m[v] = e
+    f = dict(x.f)
+    for k, (p, e) in y.f.items():
+        if k not in f or f[k][1] < e:
+            f[k] = (p, e)
+    n = padd(pmul(x.n, _cofactor(c, m, f, x)), pmul(y.n, _cofactor(c, m, f, y)))
+    return _clean(Frac(n, c, m, f))
 
 
 def fmul(x, y):
-    (n1, d1), (n2, d2) = x, y
-    if not n1 or not n2:
-        return {}, ONE
-    return normalise(pmul(n1, n2), pmul(d1, d2))
+    if not x.n or not y.n:
+        return Frac({}, 1, {}, {})
+    m = dict(x.m)
+    for v, e in y.m.items():
+        m[v] = m.get(v, 0) + e
+    f = dict(x.f)
+    for k, (p, e) in y.f.items():
+        f[k] = (p, f[k][1] + e) if k in f else (p, e)
+    # cancel numerator factors that are literally denominator factors
+    n1, n2 = x.n, y.n
+    for nn_i, other in ((0, y), (1, x)):
+        pass
+    return _clean(Frac(pmul(n1, n2), x.c * y.c, m, f))
+
+
+def _factor_den(p):
+    """polynomial -> (sign, int content, monomial dict, primitive poly or None)"""
+    c = content(p)
+    mc = mono_content(p)
+    mc.pop(S3, None)
+    q = mono_div(p, mc) if mc else p
+    if c > 1:
+        q = {m: v // c for m, v in q.items()}
+    sign = 1
+    if not _lead_positive(q):
+        q = pneg(q)
+        sign = -1
+    if len(q) == 1 and () in q and q[()] == 1:
+        q = None
+    return sign, c, mc, q
+
+
+def finv(y):
+    if not y.n:
+        raise ZeroDivisionError('identically zero denominator')
+    sign, c, mc, q = _factor_den(y.n)
+    n = {tuple(sorted(y.m.items())): y.c * sign}
+    for p, e in y.f.values():
+        n = pmul(n, ppow(p, e))
+    f = {}
+    if q is not None:
+        f[_pkey(q)] = (q, 1)
+    return _clean(Frac(n, c, dict(mc), f))
 
 
 def fdiv(x, y):
-    (n1, d1), (n2, d2) = x, y
-    if not n2:
-        raise ZeroDivisionError('identically zero denominator')
-    if not n1:
-        return {}, ONE
-    return normalise(pmul(n1, d2), pmul(d1, n2))
+    if not x.n:
+        if not y.n:
+            raise ZeroDivisionError('identically zero denominator')
+        return Frac({}, 1, {}, {})
+    inv = finv(y)
+    # cancel a denominator factor of x*inv against an identical numerator (common: a / a-like sums)
+    r = fmul(x, inv)
+    k = _pkey(r.n) if len(r.n) > 1 else None
+    if k is not None and k in r.f:
+        p, e = r.f[k]
+        r.n = {(): 1}
+        if e > 1:
+            r.f[k] = (p, e - 1)
+        else:
+            del r.f[k]
+    return r
 
 
 def fpow(x, k):
-    n, d = x
-    return normalise(ppow(n, k), ppow(d, k))
+    return _clean(Frac(ppow(x.n, k), x.c ** k, {v: e * k for v, e in x.m.items()},
+                       {kk: (p, e * k) for kk, (p, e) in x.f.items()}))
 
 
 def fconst(a_num, a_den, b_num=0, b_den=1):
     """(a_num/a_den) + (b_num/b_den) * sqrt3"""
     if b_num == 0:
-        return ({(): a_num} if a_num else {}), {(): a_den}
+        return Frac(({(): a_num} if a_num else {}), a_den if a_num else 1)
     den = a_den * b_den // gcd(a_den, b_den)
     n = {}
     if a_num:
         n[()] = a_num * (den // a_den)
     n[((S3, 1),)] = b_num * (den // b_den)
-    return n, {(): den}
+    return _clean(Frac(n, den))
 
 
 def fvar(vid):
-    return {((vid, 1),): 1}, ONE
+    return Frac({((vid, 1),): 1})
 
 
 def split_by_var(p, vid):
